@@ -7,7 +7,10 @@
 //! catalogs with valid RDATA (the fixture catalogs except "malformed", the
 //! std zone in a SingleZoneCatalog, and two generated zones: `deep.` with
 //! names at the 63/255 limits and every known RDATA type, `big.` with
-//! RRsets that push names beyond offset 0x3fff).
+//! RRsets that push names beyond offset 0x3fff, `wide.` with delegations /
+//! MX / SRV RRsets of every size 1..=20 and 40 with glue, `straddle.` with
+//! RRsets of sibling-pair names whose fresh labels land on either side of
+//! offset 0x4000 at each of 40 one-octet alignments).
 //! Oracle: qvlib::wire::decode_message in strict mode (exact consumption,
 //! counts = records present, labels <= 63, names <= 255, every pointer
 //! backwards onto the start of a label of an earlier name, exact RDLENGTHs,
@@ -66,7 +69,10 @@ pub fn world(quick: bool) -> World {
     World::new(vec![
         ("deep".to_string(), zones::catalog_from(vec![("deep.", zones::deep_zone_recs())])),
         ("big".to_string(), zones::catalog_from(vec![("big.", zones::big_zone_recs(1))])),
-    ])
+    ]
+    .into_iter()
+    .chain(zones::large_catalogs())
+    .collect())
 }
 
 pub fn run(ctx: Ctx) -> ! {
@@ -105,7 +111,7 @@ pub fn run(ctx: Ctx) -> ! {
     // names of the other fixture zones (CH zone, failed+child)
     std_recs.push(qvlib::qd::Rec::new(&qvlib::wire::wname("host.t."), t::A, c::IN, 1, &[1, 2, 3, 4]));
     let groups: Vec<(&str, Vec<&str>, Vec<Vec<u8>>)> = vec![
-        ("std", all.iter().copied().filter(|n| *n != "deep" && *n != "big").collect(), zones::name_universe(&std_recs)),
+        ("std", all.iter().copied().filter(|n| !["deep", "big", "wide", "straddle"].contains(n)).collect(), zones::name_universe(&std_recs)),
         ("deep", vec!["deep"], zones::name_universe(&zones::deep_zone_recs())),
         (
             "big",
@@ -125,6 +131,13 @@ pub fn run(ctx: Ctx) -> ! {
         universe_sizes.push(json!({"zone_family": gname, "names": names.len(), "requests": reqs.len(), "catalogs": gcats}));
         let gslots = slots_of(gcats);
         drive::run_reqs(&ctx, &world, &gslots, &reqs, false, verdict);
+        eprintln!("[C02] query universe {gname} done at {:.1}s ({} calls)", ctx.elapsed_s(), ctx.evaluations());
+    }
+    // Large generated zones: wide RRsets / delegations with glue, and RRsets
+    // whose names straddle offset 0x4000 at every alignment.
+    for (gname, reqs) in zones::large_universes() {
+        universe_sizes.push(json!({"zone_family": gname, "requests": reqs.len(), "catalogs": [gname]}));
+        drive::run_reqs(&ctx, &world, &slots_of(&[gname]), &reqs, false, verdict);
         eprintln!("[C02] query universe {gname} done at {:.1}s ({} calls)", ctx.elapsed_s(), ctx.evaluations());
     }
     ctx.set_extra("query_universes", json!(universe_sizes));
